@@ -105,6 +105,24 @@ Theorem C12_holder_inspectors : forall p, pdu_wf p ->
 Proof. exact holder_inspectors. Qed.
 Print Assumptions C12_holder_inspectors.
 
+(* for EVERY buffer the factory accepts (not only packed PDUs): the returned object is a
+   well-formed instance of the class the octets denote (type bit / directive octet), and the
+   accessor table applies to the holder the factory fills *)
+Theorem C12_factory_output_wf : forall d p, wf_bytes d -> fac_from_raw d = Ok (Some p) -> pdu_wf p.
+Proof. exact factory_output_wf. Qed.
+Print Assumptions C12_factory_output_wf.
+
+Theorem C12_factory_kind_matches : forall d p, wf_bytes d -> fac_from_raw d = Ok (Some p) ->
+  fac_is_file_directive d = Ok (negb (pdu_kind p =? 0)) /\
+  fac_pdu_directive_type d = Ok (kind_code (pdu_kind p)).
+Proof. exact factory_kind_matches. Qed.
+Print Assumptions C12_factory_kind_matches.
+
+Theorem C12_factory_holder_table_any : forall d p k, wf_bytes d -> fac_from_raw_to_holder d = Ok (Some p) ->
+  0 <= k <= 7 -> holder_to k (Some p) = if k =? pdu_kind p then Ok p else Err EType.
+Proof. exact factory_holder_table_any. Qed.
+Print Assumptions C12_factory_holder_table_any.
+
 (* non-vacuity: the example parameter sets of C06 / C07 satisfy the hypotheses *)
 Example C12_nak_example : nak_valid nak_example_conf nak_example_params.
 Proof. exact nak_valid_example. Qed.
